@@ -443,6 +443,13 @@ func (c *Ctx) stageHTTP(refs map[refKey]*Ref, keys []refKey) {
 				}
 			}
 			sysFaults = append(sysFaults, Fault{Op: "http", At: "url:" + fn, Kind: "empty"})
+			// what servers really answer: error statuses with a body (and "come back at once"),
+			// and a Content-Length that is absurd or too small for the body that follows
+			for _, code := range []int{503, 429, 404, 500, 204, 301} {
+				sysFaults = append(sysFaults, Fault{Op: "http", At: "url:" + fn, Kind: "status", N: code})
+			}
+			sysFaults = append(sysFaults, Fault{Op: "http", At: "url:" + fn, Kind: "clen", N: -1})
+			sysFaults = append(sysFaults, Fault{Op: "http", At: "url:" + fn, Kind: "clen", N: 1})
 		}
 		for i := 0; i < n+len(sysFaults); i++ {
 			cfg := ref.Cfg
